@@ -1,7 +1,7 @@
 (* C20/Run.v — model evaluation on harness histories.
    input: [failures disabled interval t0 [ [ [oks...] time [q1 q2 ...] ] ... ]]  (query times after each round)
    output: [ [ [model_q1 spec_q1 model_q2 spec_q2 ...] ... ] loop_exits ] *)
-From Relic Require Import Base.Prelude Base.Val Generated.C20_gen C20.Model.
+From Relic Require Import Base.Prelude Base.Val Generated.C20_gen C20.Model C20.Lock.
 
 Definition vround (v : val) : round := mkR (map vbool (vl (vnth 0 v))) (vz (vnth 1 v)).
 Fixpoint go (failures : Z) (disabled : bool) (interval t0 : Z) (done : list round) (rest : list val) : list val :=
@@ -14,6 +14,40 @@ Fixpoint go (failures : Z) (disabled : bool) (interval t0 : Z) (done : list roun
                               of_bool (spec_healthy disabled interval failures t0 done' (vz q))]) (vl (vnth 2 v)))
       :: go failures disabled interval t0 done' rest'
   end.
-Definition run (v : val) : val :=
+Definition run_hist (v : val) : val :=
   VL [VL (go (vz (vnth 0 v)) (vbool (vnth 1 v)) (vz (vnth 2 v)) (vz (vnth 3 v)) [] (vl (vnth 4 v)));
       of_bool loop_closed_exits].
+
+(* concurrent scenarios.
+   input:  [-1 failures disabled interval tokens t0 now0 [action ...]]
+           action = [0 d] time passes | [1] a round begins | [2 ok] the ping in flight returns | [3] GET /health | [4] Close
+   output: [ [obs ...] [spec-obs ...] [flags] late stuck published ]
+           obs = [1 healthy t] answered | [0 t] blocked behind healthMu
+           flags = [analysis-understands-healthCheck ping_locked closed_check leak_early leak_end
+                    analysis-understands-Healthy q_early q_block_locked q_leak close_joins_loop q_locks] *)
+Definition vaction (v : val) : action :=
+  match vz (vnth 0 v) with
+  | 0 => ATick (vz (vnth 1 v))
+  | 1 => ABegin
+  | 2 => APing (vbool (vnth 1 v))
+  | 3 => AQuery
+  | _ => AClose
+  end.
+Definition of_obs (o : obs) : val :=
+  match o with OAns b t => VL [VZ 1; of_bool b; VZ t] | OBlocked t => VL [VZ 0; VZ t] end.
+Definition plan_flags : val :=
+  VL [of_bool (match analyze hc_events with Some _ => true | None => false end);
+      of_bool (p_ping_locked hc_plan); of_bool (p_closed_check hc_plan); of_bool (p_leak_early hc_plan); of_bool (p_leak_end hc_plan);
+      of_bool (match analyze_q healthy_events with Some _ => true | None => false end);
+      of_bool (q_early healthy_plan); of_bool (q_block_locked healthy_plan); of_bool (q_leak healthy_plan);
+      of_bool close_joins_loop; of_bool (q_locks healthy_plan)].
+Definition run_conc (v : val) : val :=
+  let C := mkCfg (vz (vnth 1 v)) (vbool (vnth 2 v)) (vz (vnth 3 v)) (Z.to_nat (vz (vnth 4 v))) in
+  let t0 := vz (vnth 5 v) in
+  let s0 := init C t0 (vz (vnth 6 v)) in
+  let sched := map vaction (vl (vnth 7 v)) in
+  let '(s, os) := run_sys hc_plan healthy_plan C s0 sched in
+  VL [VL (map of_obs os); VL (map of_obs (spec_obs hc_plan healthy_plan C t0 s0 sched)); plan_flags;
+      VZ (s_late s); of_bool (match s_phase s with CStuck => true | _ => false end); VZ (zlen (s_hist s))].
+Definition run (v : val) : val :=
+  if vz (vnth 0 v) =? -1 then run_conc v else run_hist v.
